@@ -213,6 +213,10 @@ def k3(shape):
         elif op == 't':
             cache.truncate(t)
             eng.note(f'truncate({t})')
+            # what truncation is for: the source may differ above the truncation point afterwards
+            # (a reorganisation replaced those hashes)
+            for i in range(t, S):
+                leaves[i] = eng.fresh_bytes(f'M{i}', 32)
 
 
 def k3_shapes(tier):
@@ -250,6 +254,8 @@ KERNELS = [
            bounds='source of S=6 (quick) / 11 (thorough) symbolic hashes; initial length a, truncation t in 1..S '
                   '(shapes); two queries (length, index) over all values (solver-enumerated); orders '
                   'query-truncate-query and truncate-query-query; plus spot shapes with S=21 in thorough',
-           outside='longer operation sequences, sources above the bound; a source that changes (that is C11)',
+           outside='longer operation sequences, sources above the bound; a source that changes while a request is '
+                   'in flight (that is C11); after truncate(t) the hashes at positions >= t are replaced by fresh '
+                   'symbolic ones',
            witnesses=1),
 ]
